@@ -19,7 +19,8 @@ for d in sys.argv[1:]:
     os.makedirs(out, exist_ok=True)
     for f in os.listdir(d):
         if f in ('patch.diff', 'demo.sh', 'demo_test.rs'):
-            shutil.copy(os.path.join(d, f), os.path.join(out, f))
+            if os.path.abspath(os.path.join(d, f)) != os.path.abspath(os.path.join(out, f)):
+                shutil.copy(os.path.join(d, f), os.path.join(out, f))
     meta = json.load(open(os.path.join(d, 'meta.json')))
     meta['breaks_property'] = meta.get('property')
     meta['confirmed_by_me'] = dict(test_suite_with_change=res.get('test_suite_with_change'), demo_with_change_rc=res.get('demo_with_change_rc'),
